@@ -47,12 +47,18 @@ def rand_wcs(R):
         w.wcs.crpix = [R.uniform(0.5, W + 0.5), R.uniform(0.5, H + 0.5)]
     else:
         w.wcs.crpix = [(W + 1) / 2, (H + 1) / 2]
-    s = 10 ** R.uniform(-5, -2)
+    s = 10 ** R.uniform(-9.5, -1)  # from micro-arcsecond (VLBI) pixels to 6 arcmin pixels
     an = R.choice([1.0, 1.0, R.uniform(0.5, 2)])
     rot = R.choice([0.0, R.uniform(0, 2 * math.pi)])
     skew = R.choice([0.0, 0.0, R.uniform(-0.3, 0.3)])
     par = R.choice([-1, 1])
     c, sn = math.cos(rot), math.sin(rot)
+    if R.random() < 0.2:
+        # exact quarter turns: literal zeros in the matrix (cos(radians(90)) is 6e-17, not 0)
+        q = R.choice([1, 2, 3])
+        rot = q * math.pi / 2
+        c, sn = [(0.0, 1.0), (-1.0, 0.0), (0.0, -1.0)][q - 1]
+        skew = 0.0
     M = np.array([[-s * c, par * s * an * sn + skew * s], [s * sn, par * s * an * c]])
     form = R.choice(["cd", "pc", "cdelt"])
     if form == "cd":
@@ -76,6 +82,15 @@ def indep_parity(w):
 def xyz(lon, lat):
     lon, lat = np.radians(lon), np.radians(lat)
     return np.stack([np.cos(lat) * np.cos(lon), np.cos(lat) * np.sin(lon), np.sin(lat)], axis=-1)
+
+
+def moved(before, after, tol):
+    """pixels that moved on the sky; a pixel outside the projection's domain (NaN world coordinates) must be so on both sides"""
+    nb = ~np.isfinite(before).all(axis=1)
+    na = ~np.isfinite(after).all(axis=1)
+    d = np.linalg.norm(np.where(nb[:, None] | na[:, None], 0.0, before - after), axis=1)
+    d = np.where(nb != na, np.inf, d)
+    return d, ~(d <= tol)
 
 
 def check_flip(w0, W, H, arr, meta, probs, R, counters):
@@ -116,7 +131,7 @@ def check_flip(w0, W, H, arr, meta, probs, R, counters):
             if obj.get_parity_sign() != -p0:
                 probs.append("PIL-backed image: parity not negated")
             after = xyz(*obj.wcs.all_pix2world(xs, H - 1 - ys, 0))
-            if not (np.linalg.norm(before - after, axis=1) <= math.radians(scale) * 1e-6 + 1e-13).all():
+            if moved(before, after, math.radians(scale) * 1e-6 + 1e-13)[1].any():
                 probs.append("PIL-backed image: pixels moved on the sky after flip_parity (%s)" % meta)
             obj.ensure_negative_parity()
             obj.ensure_negative_parity()
@@ -140,10 +155,10 @@ def check_flip(w0, W, H, arr, meta, probs, R, counters):
         if kind == "image" and not np.array_equal(obj.asarray(), arr[::-1]):
             probs.append("image rows are not reversed exactly after flip_parity (%s)" % meta)
         after = xyz(*w1.all_pix2world(xs, H - 1 - ys, 0))
-        d = np.linalg.norm(before - after, axis=1)
-        counters["pixels_compared"] += len(xs)
         tol = math.radians(scale) * 1e-6 + 1e-13
-        if not (d <= tol).all():
+        d, bad = moved(before, after, tol)
+        counters["pixels_compared"] += len(xs)
+        if bad.any():
             j = int(np.argmax(d))
             probs.append("%s: pixel (x=%d,y=%d) moved on the sky by %.3g pixel after flip_parity (%s)" % (kind, xs[j], ys[j], d[j] / math.radians(scale), meta))
         # ensure_negative_parity: -1, idempotent
@@ -154,7 +169,7 @@ def check_flip(w0, W, H, arr, meta, probs, R, counters):
         h1 = obj2.wcs.to_header(relax=True).tostring()
         a1 = obj2.asarray().copy() if kind == "image" else None
         e1 = xyz(*obj2.wcs.all_pix2world(xs, (H - 1 - ys) if p0 == 1 else ys, 0))
-        if not (np.linalg.norm(before - e1, axis=1) <= tol).all():
+        if moved(before, e1, tol)[1].any():
             probs.append("%s: ensure_negative_parity moved pixels on the sky (%s)" % (kind, meta))
         if kind == "image" and not np.array_equal(a1, arr[::-1] if p0 == 1 else arr):
             probs.append("image: ensure_negative_parity rows wrong for starting parity %d" % p0)
